@@ -2,16 +2,20 @@
 (* Validates client-visible histories recorded from the real gateway        *)
 (* against LinKey.  One trace line per history:                              *)
 (*    [init |-> "w0" | "absent", h |-> <<op records>>]                       *)
+(* (a line with mode |-> "acct" is judged by the account reading of LinKey)  *)
 (* verdict.ndjson: rejected line numbers and the class of every line.        *)
 EXTENDS LinKey, Json, SequencesExt
 VARIABLES l, bad, cls, cul
 Trace == ndJsonDeserialize("trace.ndjson")
 Init == l = 1 /\ bad = {} /\ cls = <<>> /\ cul = <<>>
 Step == /\ l <= Len(Trace)
-        /\ LET c == Classify(Trace[l].init, ToSet(Trace[l].h)) IN
+        /\ LET acct == "mode" \in DOMAIN Trace[l] /\ Trace[l].mode = "acct"
+               c == IF acct THEN ClassifyAcct(Trace[l].init, ToSet(Trace[l].h)) ELSE Classify(Trace[l].init, ToSet(Trace[l].h)) IN
              /\ bad' = IF c = "ok" THEN bad ELSE bad \cup {l}
              /\ cls' = Append(cls, c)
-             /\ cul' = Append(cul, IF c = "ok" THEN <<>> ELSE SetToSeq(Culprits(Trace[l].init, ToSet(Trace[l].h))))
+             /\ cul' = Append(cul, IF c = "ok" THEN <<>>
+                                       ELSE IF acct THEN SetToSeq(CulpritsAcct(Trace[l].init, ToSet(Trace[l].h)))
+                                       ELSE SetToSeq(Culprits(Trace[l].init, ToSet(Trace[l].h))))
         /\ l' = l + 1
 Done == /\ l = Len(Trace) + 1
         /\ ndJsonSerialize("verdict.ndjson", <<[n |-> Len(Trace), bad |-> bad, classes |-> cls, culprits |-> cul]>>)
